@@ -360,6 +360,19 @@ def mon_C15_inspect(s):
             m = copy.deepcopy(base)
             m["tasks"][ti]["retry"]["when"] = {"op": "eq", "a": {"ctx": "never_assigned"}, "b": {"lit": 1}}
             muts.append(("context", "unassigned variable in retry.when of %s" % t["name"], m))
+    # (d) the string form of `do` with a comma missing or an empty element: the tokens name no task
+    for ti, t in enumerate(base["tasks"]):
+        if t["name"] not in reach:
+            continue
+        for ri, tr in enumerate(t["next"]):
+            if len(tr["do"]) >= 2:
+                m = copy.deepcopy(base)
+                m["tasks"][ti]["next"][ri]["do_raw"] = " ".join(tr["do"])
+                muts.append(("semantics", "comma missing in the do string of %s.next[%d]" % (t["name"], ri), m))
+            if tr["do"]:
+                m = copy.deepcopy(base)
+                m["tasks"][ti]["next"][ri]["do_raw"] = ", ".join(tr["do"]) + ","
+                muts.append(("semantics", "empty element in the do string of %s.next[%d]" % (t["name"], ri), m))
     # (c) a task named like an engine command
     if names:
         m = copy.deepcopy(base)
